@@ -8,7 +8,7 @@ Core Lean only, generic over `[DNum α]`, same operation order as the C++.
 Oracle (DESIGN 1.3): `getPath` finds the turning radius of a high-altitude path and the initial turn angle of a
 medium-altitude path with boost's TOMS748 `bracket_and_solve_root`, which is not modelled.  `getPathWith` takes
 that root as a recorded answer (`root`) and recomputes everything else as coded: the category decision, the number
-of full turns `k`, the acceptance test `|radiusFun(radius)| > 1e-5 → no path`, the Dubins word for that radius /
+of full turns `k`, the acceptance tests `|radiusFun(radius)| > 1e-5 → no path` and `|phiFun(phi)| > 1e-5 → no path`, the Dubins word for that radius /
 from the turned start pose, the length and the interpolation.  The correspondence run feeds the root the real code
 printed and compares every other field bit for bit.
 -/
@@ -66,10 +66,14 @@ def getPathWith (rho tanp root : α) (s1 s2 : St4 α) : Option (OPath α) :=
         let f := (Pr.len + twopi * k) * radius * tanp - Num.abs dz
         if rootTol < Num.abs f then none else some ⟨Pr, radius, dz, 0, k⟩
     else
+      -- phiFun(phi) = (|phi| + dubins(turn(s1, rho, phi), s2).length()) * rho * tanMaxPitch - |dz|; both bracketing
+      -- attempts reject |phiFun(phi)| > 1e-5 (the second one since fix 0a31e23cc, finding F127)
       let zi := turn s1.pose rho root
       match dlen rho zi s2.pose with
       | none => none
-      | some Pm => some ⟨Pm, rho, dz, root, 0⟩
+      | some Pm =>
+        let f := (Num.abs root + Pm.len) * rho * tanp - Num.abs dz
+        if rootTol < Num.abs f then none else some ⟨Pm, rho, dz, root, 0⟩
 
 /-- `PathType::length()` -/
 def OPath.len (p : OPath α) : α :=
